@@ -203,7 +203,7 @@ pub fn execute(sc: &Scenario, env: &Env) -> (Outcome, RunStats) {
                     let threads = w.threads_sorted(w.st().store.as_ref());
                     let did = seam::passthrough(|| faults::apply_fault(&w.dirs, &threads, &versions, f));
                     if let Some(d) = did {
-                        let kind = d.split(['.', ',']).next().unwrap_or("x").to_string();
+                        let kind = d.split(['.', ',', '!']).next().unwrap_or("x").to_string();
                         sh.lock().unwrap().stats.bump(&format!("fault:cache_{kind}"), 1);
                         mix(&sh, &format!("F{d}"));
                     }
